@@ -36,8 +36,15 @@ type GoStructRegistryType struct {
 	// only init-time builtins
 	Builtin map[string]*RegisteredType
 
-	// later, user-defined types
+	// later, user-defined types: registered by the host program
 	Userdef map[string]*RegisteredType
+
+	// types that a script declared while it ran (a struct declaration,
+	// the type name of a record met in data, a pointer, slice or array
+	// type derived from another). They are found by name like the
+	// others, but they belong to what that script did: a new
+	// interpreter does not start with them bound.
+	Scriptdef map[string]*RegisteredType
 
 	// lazily added functions
 	LazyFunc map[string]ZlispUserFunction
@@ -47,7 +54,8 @@ type GoStructRegistryType struct {
 var ListRegisteredTypes = []string{}
 
 func (r *GoStructRegistryType) RegisterBuiltin(name string, e *RegisteredType) {
-	r.register(name, e, false)
+	r.register(name, e)
+	r.Builtin[name] = e
 	e.IsUser = false
 }
 
@@ -59,12 +67,16 @@ func (r *GoStructRegistryType) RegisterPointer(pointedToName string, pointedToTy
 		}
 		return &p, nil
 	}}
-	r.register(fmt.Sprintf("(* %s)", pointedToName), newRT, false)
+	name := fmt.Sprintf("(* %s)", pointedToName)
+	r.register(name, newRT)
+	r.Builtin[name] = newRT
 	newRT.IsPointer = true
 	return newRT
 }
 
-func (r *GoStructRegistryType) register(name string, e *RegisteredType, isUser bool) {
+// register makes e the type found under name. Which of Builtin, Userdef
+// and Scriptdef lists it too is the caller's business.
+func (r *GoStructRegistryType) register(name string, e *RegisteredType) {
 	if !e.initDone {
 		e.Init()
 	}
@@ -81,11 +93,6 @@ func (r *GoStructRegistryType) register(name string, e *RegisteredType, isUser b
 		ListRegisteredTypes = append(ListRegisteredTypes, e.ReflectName)
 	}
 
-	if isUser {
-		r.Userdef[name] = e
-	} else {
-		r.Builtin[name] = e
-	}
 	r.Registry[name] = e
 	r.Registry[e.ReflectName] = e
 }
@@ -120,6 +127,27 @@ func (r *GoStructRegistryType) RegisterUserdef(
 	hasShadowStruct bool,
 	names ...string) {
 
+	for _, e0 := range r.registerUser(e, hasShadowStruct, names) {
+		r.Userdef[e0.RegisteredName] = e0
+	}
+}
+
+// RegisterScriptdef registers a type on behalf of a running script.
+// ImportBaseTypes binds the Builtin and Userdef types as globals of every
+// new interpreter; a name chosen by a script (or by the data it decodes)
+// must not end up there: it would shadow a function, or collide with a
+// macro of the prelude, in every interpreter made afterwards.
+func (r *GoStructRegistryType) RegisterScriptdef(e *RegisteredType, names ...string) {
+	for _, e0 := range r.registerUser(e, false, names) {
+		r.Scriptdef[e0.RegisteredName] = e0
+	}
+}
+
+func (r *GoStructRegistryType) registerUser(
+	e *RegisteredType,
+	hasShadowStruct bool,
+	names []string) (regs []*RegisteredType) {
+
 	for i, name := range names {
 		e0 := e
 		if i > 0 {
@@ -128,7 +156,7 @@ func (r *GoStructRegistryType) RegisterUserdef(
 			rt := *e
 			e0 = &rt
 		}
-		r.register(name, e0, true)
+		r.register(name, e0)
 		e0.IsUser = true
 		e0.hasShadowStruct = hasShadowStruct
 
@@ -136,7 +164,9 @@ func (r *GoStructRegistryType) RegisterUserdef(
 		if e0.DisplayAs == "" {
 			e0.DisplayAs = name
 		}
+		regs = append(regs, e0)
 	}
+	return regs
 }
 
 func (r *GoStructRegistryType) Lookup(name string) *RegisteredType {
@@ -259,6 +289,8 @@ func init() {
 		Registry: make(map[string]*RegisteredType),
 		Builtin:  make(map[string]*RegisteredType),
 		Userdef:  make(map[string]*RegisteredType),
+
+		Scriptdef: make(map[string]*RegisteredType),
 	}
 
 	gsr := &GoStructRegistry
@@ -452,7 +484,7 @@ func (gsr *GoStructRegistryType) GetOrCreatePointerType(pointedToType *Registere
 		})
 		ptrRt.DisplayAs = fmt.Sprintf("(* %s)", pointedToType.DisplayAs)
 		ptrRt.RegisteredName = ptrName
-		gsr.RegisterUserdef(ptrRt, false, ptrName)
+		gsr.RegisterScriptdef(ptrRt, ptrName)
 	}
 	return ptrRt
 }
@@ -480,7 +512,7 @@ func (gsr *GoStructRegistryType) GetOrCreateSliceType(rt *RegisteredType) *Regis
 		})
 		sliceRt.DisplayAs = fmt.Sprintf("(%s)", sliceName)
 		sliceRt.RegisteredName = sliceName
-		gsr.RegisterUserdef(sliceRt, false, sliceName)
+		gsr.RegisterScriptdef(sliceRt, sliceName)
 	}
 	return sliceRt
 }
